@@ -50,6 +50,27 @@ def macU64Shift (b0 b1 b2 b3 b4 b5 : B) : Nat :=
   (b0.toNat <<< 40) ||| (b1.toNat <<< 32) ||| (b2.toNat <<< 24) ||| (b3.toNat <<< 16) |||
     (b4.toNat <<< 8) ||| b5.toNat
 
+/-- Go `antispoof.macToUint64` on an ARBITRARY hardware address: it indexes `mac[0]`…`mac[5]`, so fewer than six
+    bytes is an index-out-of-range panic (`none`); extra bytes are ignored -/
+def macU64ShiftL : List B → Option Nat
+  | b0 :: b1 :: b2 :: b3 :: b4 :: b5 :: _ => some (macU64Shift b0 b1 b2 b3 b4 b5)
+  | _ => none
+
+/-- what the kernel programs key a client by: `mac_to_u64` over the SIX bytes they have — `dhcp->chaddr[0..5]` /
+    `eth->h_source` — i.e. the hardware address truncated (zero padded) to six bytes -/
+def macU64COf (mac : List B) : Nat :=
+  macU64CLoop (mac.getD 0 0) (mac.getD 1 0) (mac.getD 2 0) (mac.getD 3 0) (mac.getD 4 0) (mac.getD 5 0)
+
+/-- THE map key of a hardware address: the big-endian number of its FIRST six bytes -/
+def macKey6 (mac : List B) : Nat := (mac.take 6).foldl (fun r b => r * 256 + b.toNat) 0
+
+/-- Go `Uint64ToMAC` / `uint64ToMAC`: `for i := 5; i >= 0; i-- { mac[i] = byte(n & 0xFF); n >>= 8 }` -/
+def u64ToMacAux : Nat → Nat → List B → List B
+  | 0, _, acc => acc
+  | i + 1, n, acc => u64ToMacAux i (n >>> 8) (UInt8.ofNat (n &&& 0xFF) :: acc)
+
+def u64ToMac (n : Nat) : List B := u64ToMacAux 6 n []
+
 /-- the eight key bytes of a `__u64` / `uint64` map key -/
 def u64KeyBytes (k : Nat) : List B := leBytes 8 k
 
